@@ -7,6 +7,7 @@
   schedule of the polling model is observed black-box.
 -/
 import Walleye.Props.C08
+import Walleye.Props.C04
 import Walleye.Proofs.GenSound
 import Walleye.Proofs.Fallback
 import Walleye.Proofs.LegalPres
@@ -118,24 +119,25 @@ theorem search_always_hands_over_a_move {P O : Type} (g : Game P) (ord : Oracle 
 theorem bestmove_text_is_a_legal_move (h : Hasher) (root : Pos) (wf : WFp root) (hinv : Inv h root) (q : Pos)
     (hq : ∃ m ∈ generateMoves h root .all, q = m ∨ q = (chessGame h).withOh m Gen.posInf) :
     bestmoveLine q = some ("bestmove ".toList ++ uciText (moveOf q)) ∧
-    Spec.legal (abs root) (moveOf q) = true ∧ abs q = Spec.apply (abs root) (moveOf q) ∧ WFp q := by
+    Spec.legal (abs root) (moveOf q) = true ∧ abs q = Spec.apply (abs root) (moveOf q) ∧ WFp q ∧ Inv h q := by
   obtain ⟨m, hm, hor⟩ := hq
   obtain ⟨a, b, _, hl, ha, hb, _, _⟩ := makeMove_reproduces_successor h root wf m hm
   obtain ⟨hlegal, habs⟩ := generateMoves_sound h root wf m hm
-  obtain ⟨hwf, _⟩ := generateMoves_wf h root wf hinv m hm
+  obtain ⟨hwf, hinvm⟩ := generateMoves_wf h root wf hinv m hm
   have htxt : moveText m = some (uciText (moveOf m)) := by
     rw [moveText_eq m a b hl]
     unfold uciText moveOf
     rw [hl]
     simp only [toPt_specOf a ha, toPt_specOf b hb]
   have key : bestmoveLine m = some ("bestmove ".toList ++ uciText (moveOf m)) ∧
-      Spec.legal (abs root) (moveOf m) = true ∧ abs m = Spec.apply (abs root) (moveOf m) ∧ WFp m := by
-    refine ⟨?_, hlegal, habs, hwf⟩
+      Spec.legal (abs root) (moveOf m) = true ∧ abs m = Spec.apply (abs root) (moveOf m) ∧ WFp m ∧ Inv h m := by
+    refine ⟨?_, hlegal, habs, hwf, hinvm⟩
     unfold bestmoveLine
     rw [htxt]; rfl
   rcases hor with rfl | rfl
   · exact key
-  · exact ⟨key.1, key.2.1, key.2.2.1, ⟨hwf.ring, hwf.inner, hwf.kings, hwf.lp, hwf.epb⟩⟩
+  · exact ⟨key.1, key.2.1, key.2.2.1, ⟨hwf.ring, hwf.inner, hwf.kings, hwf.lp, hwf.epb⟩,
+      ⟨hinvm.ring, hinvm.ep, hinvm.key⟩⟩
 
 /-- **one `go`, end to end, on the model**: the current position is well-formed (a legal position,
     as produced by `position` from any legal FEN / move list — C15, C04) and has a legal move; the
@@ -158,7 +160,7 @@ theorem go_is_answered_with_one_legal_bestmove {O : Type} (h : Hasher) (search :
     (hs : step h search σ (some raw) = .cont σ' out) :
     ∃ m : Spec.Move, Spec.legal (abs σ.board) m = true ∧
       out = [String.ofList ("bestmove ".toList ++ uciText m)] ∧
-      abs σ'.board = Spec.apply (abs σ.board) m ∧ WFp σ'.board ∧ σ'.table = σ.table := by
+      abs σ'.board = Spec.apply (abs σ.board) m ∧ WFp σ'.board ∧ Inv h σ'.board ∧ σ'.table = σ.table := by
   obtain ⟨hres, htab⟩ := go_answer_is_search_result h search σ σ' raw out gt hc hg hne hs
   rw [hsearch] at hres
   -- the board played arrived on the channel, hence was sent, hence is a root successor
@@ -169,8 +171,8 @@ theorem go_is_answered_with_one_legal_bestmove {O : Type} (h : Hasher) (search :
     · exact h1
   have hsent := harr σ'.board harrived
   have hroot := getBestMove_sends_root_successors (chessGame h) ord hord fuel σ.board s0 hs0 σ'.board hsent
-  obtain ⟨hline, hlegal, habs, hwf⟩ := bestmove_text_is_a_legal_move h σ.board wf hinv σ'.board hroot
-  refine ⟨moveOf σ'.board, hlegal, ?_, habs, hwf, htab⟩
+  obtain ⟨hline, hlegal, habs, hwf, hinv'⟩ := bestmove_text_is_a_legal_move h σ.board wf hinv σ'.board hroot
+  refine ⟨moveOf σ'.board, hlegal, ?_, habs, hwf, hinv', htab⟩
   -- what the dispatcher printed
   unfold step at hs
   have hne' : (generateMoves h σ.board .all).isEmpty = false := by
@@ -182,5 +184,161 @@ theorem go_is_answered_with_one_legal_bestmove {O : Type} (h : Hasher) (search :
   simp only [hline] at hs
   injection hs with _ hout
   exact hout.symm
+
+
+/-! ### several `go` commands without a new `position` -/
+
+/-- what the threads and the channel deliver, as far as the dispatcher can tell: whenever `search`
+    hands back a board for a well-formed position with a legal move, that board is a root successor
+    (possibly re-tagged as the PV node).  `go_is_answered_with_one_legal_bestmove` derives this from
+    the polling loop over any schedule and the search under any clock and ordering. -/
+def Realised (h : Hasher) (search : Pos → DrawTable → Nat → Option Pos) : Prop :=
+  ∀ board table slice b, WFp board → Inv h board → search board table slice = some b →
+    ∃ m ∈ generateMoves h board .all, b = m ∨ b = (chessGame h).withOh m Gen.posInf
+
+/-- the moves are legal one after the other -/
+inductive LegalChain : Spec.Position → List Spec.Move → Prop
+  | nil (P : Spec.Position) : LegalChain P []
+  | cons {P : Spec.Position} {m : Spec.Move} {ms : List Spec.Move} :
+      Spec.legal P m = true → LegalChain (Spec.apply P m) ms → LegalChain P (m :: ms)
+
+/-- run a list of raw lines through the dispatcher, collecting the output of each -/
+def runLines (h : Hasher) (search : Pos → DrawTable → Nat → Option Pos) : Sess → List (List Char) → Option (Sess × List (List String))
+  | σ, [] => some (σ, [])
+  | σ, raw :: rest =>
+    match step h search σ (some raw) with
+    | .cont σ' out => (runLines h search σ' rest).map fun r => (r.1, out :: r.2)
+    | _ => none
+
+/-- **consecutive `go` commands**: from a well-formed position, any number of `go` lines (any clock
+    values) that are all answered print exactly one `bestmove` each; the moves on them form a chain
+    in which each is legal in the position reached by playing the engine's previous answers, and the
+    engine ends up holding exactly that position.  (A `go` on a position without legal moves answers
+    the null move and ends the chain: the statement is about answers in positions that have a move.) -/
+theorem consecutive_go_answers_are_legal (h : Hasher) (search : Pos → DrawTable → Nat → Option Pos)
+    (hreal : Realised h search) :
+    ∀ (raws : List (List Char)) (σ σ' : Sess) (outs : List (List String)),
+      WFp σ.board → Inv h σ.board →
+      (∀ raw ∈ raws, String.ofList ((splitOn ' ' (cleanInput raw)).headD []) = "go") →
+      runLines h search σ raws = some (σ', outs) →
+      (∀ o ∈ outs, o ≠ ["bestmove 0000"]) →
+      ∃ ms : List Spec.Move, LegalChain (abs σ.board) ms ∧
+        outs = ms.map (fun m => [String.ofList ("bestmove ".toList ++ uciText m)]) ∧
+        abs σ'.board = ms.foldl Spec.apply (abs σ.board) ∧ WFp σ'.board ∧ Inv h σ'.board := by
+  intro raws
+  induction raws with
+  | nil =>
+    intro σ σ' outs wf hinv _ hrun _
+    simp only [runLines, Option.some.injEq, Prod.mk.injEq] at hrun
+    obtain ⟨rfl, rfl⟩ := hrun
+    exact ⟨[], LegalChain.nil _, rfl, rfl, wf, hinv⟩
+  | cons raw rest ih =>
+    intro σ σ' outs wf hinv hgo hrun hnn
+    have hc := hgo raw (by simp)
+    unfold runLines at hrun
+    cases hst : step h search σ (some raw) with
+    | exit c => rw [hst] at hrun; cases hrun
+    | panic => rw [hst] at hrun; cases hrun
+    | hang => rw [hst] at hrun; cases hrun
+    | cont σ1 out =>
+      rw [hst] at hrun
+      simp only at hrun
+      cases hr : runLines h search σ1 rest with
+      | none => rw [hr] at hrun; cases hrun
+      | some r =>
+        rw [hr] at hrun
+        simp only [Option.map_some, Option.some.injEq, Prod.mk.injEq] at hrun
+        obtain ⟨rfl, rfl⟩ := hrun
+        -- the go line parses (otherwise the dispatcher panics) and the position has a move
+        -- (otherwise the answer is the null move)
+        have hout : out ≠ ["bestmove 0000"] := hnn out (by simp)
+        unfold step at hst
+        simp +decide only [hc, if_true, if_false] at hst
+        cases hp : parseGoCommand (splitOn ' ' (cleanInput raw)) with
+        | none => rw [hp] at hst; cases hst
+        | some gt =>
+          rw [hp] at hst
+          simp only at hst
+          by_cases hem : (generateMoves h σ.board .all).isEmpty = true
+          · rw [if_pos hem] at hst; injection hst with _ ho; exact absurd ho.symm hout
+          · rw [if_neg hem] at hst
+            cases hsr : search σ.board σ.table (calculateTimeSlice gt σ.board.toMove) with
+            | none => rw [hsr] at hst; cases hst
+            | some b =>
+              rw [hsr] at hst
+              simp only at hst
+              obtain ⟨hline, hlegal, habs, hwf1, hinv1⟩ :=
+                bestmove_text_is_a_legal_move h σ.board wf hinv b (hreal _ _ _ b wf hinv hsr)
+              rw [hline] at hst
+              simp only at hst
+              injection hst with hσ1 ho
+              subst hσ1
+              obtain ⟨ms, hchain, houts, hfin, hwf', hinv'⟩ := ih _ r.1 r.2 hwf1 hinv1
+                (fun x hx => hgo x (by simp [hx])) hr (fun o hoo => hnn o (by simp [hoo]))
+              refine ⟨moveOf b :: ms, LegalChain.cons hlegal (by rw [← habs]; exact hchain), ?_, ?_, hwf', hinv'⟩
+              · simp only [List.map_cons, ← ho, houts]
+              · simp only [List.foldl_cons, ← habs]; exact hfin
+
+
+/-- `Realised` is what the polling loop over ANY schedule and the search under ANY clock and ordering
+    deliver (so the hypothesis of `consecutive_go_answers_are_legal` is not an extra assumption about
+    the search, only about threads realising some schedule) -/
+theorem realised_of_polling {O : Type} (h : Hasher) (search : Pos → DrawTable → Nat → Option Pos)
+    (ord : Oracle Pos O) (hord : OrdSub ord) (fuel : Nat)
+    (s0 : Pos → DrawTable → Nat → SS Pos O) (hs0 : ∀ b t sl, (s0 b t sl).reports = #[])
+    (sched : Pos → DrawTable → Nat → List (Bool × Option Pos))
+    (hsearch : ∀ b t sl, search b t sl = ioLoop (sched b t sl) none)
+    (harr : ∀ b t sl x, some x ∈ (sched b t sl).map (·.2) →
+      Report.sent x ∈ (outState (getBestMove (chessGame h) ord fuel b (s0 b t sl))).reports.toList) :
+    Realised h search := by
+  intro board table slice b _ _ hs
+  rw [hsearch] at hs
+  have hmem := ioLoop_result_mem (sched board table slice) none none hs
+  have harrived : some b ∈ (sched board table slice).map (·.2) := by
+    rcases hmem with h0 | h1
+    · cases h0
+    · exact h1
+  exact getBestMove_sends_root_successors (chessGame h) ord hord fuel board (s0 board table slice)
+    (hs0 board table slice) b (harr board table slice b harrived)
+
+
+/-- **a whole session on the model**: `position startpos moves <a legal game>` followed by any number
+    of answered `go` lines (any clocks): the k-th answer is `bestmove` + the UCI text of a move that
+    is legal in the position reached by the game followed by the engine's previous answers, and the
+    engine ends up holding exactly that position — for every hasher, every behaviour of the search
+    thread and channel that hands back what the search sent (`Realised`) -/
+theorem position_then_consecutive_go (h : Hasher) (search : Pos → DrawTable → Nat → Option Pos)
+    (hreal : Realised h search) (game : List Spec.Move) (hgame : LegalSeq (abs startPosition) game)
+    (rawPos : List Char)
+    (htok : splitOn ' ' (cleanInput rawPos) =
+      ["position".toList, "startpos".toList, "moves".toList] ++ game.map uciText)
+    (σ0 σ1 σ' : Sess) (out0 : List String) (raws : List (List Char)) (outs : List (List String))
+    (hpos : step h search σ0 (some rawPos) = .cont σ1 out0)
+    (hgo : ∀ raw ∈ raws, String.ofList ((splitOn ' ' (cleanInput raw)).headD []) = "go")
+    (hrun : runLines h search σ1 raws = some (σ', outs))
+    (hnn : ∀ o ∈ outs, o ≠ ["bestmove 0000"]) :
+    out0 = [] ∧
+    ∃ ms : List Spec.Move, LegalChain (game.foldl Spec.apply (abs startPosition)) ms ∧
+      outs = ms.map (fun m => [String.ofList ("bestmove ".toList ++ uciText m)]) ∧
+      abs σ'.board = ms.foldl Spec.apply (game.foldl Spec.apply (abs startPosition)) := by
+  -- the position command
+  unfold step at hpos
+  have hc : String.ofList ((splitOn ' ' (cleanInput rawPos)).headD []) = "position" := by rw [htok]; rfl
+  simp +decide only [hc, if_true, if_false] at hpos
+  cases hp : playOutPosition h (splitOn ' ' (cleanInput rawPos)) with
+  | none => rw [hp] at hpos; cases hpos
+  | some pt =>
+    rw [hp] at hpos
+    obtain ⟨p, t⟩ := pt
+    simp only at hpos
+    injection hpos with hσ hout
+    subst hσ
+    rw [htok] at hp
+    obtain ⟨habs, hwf, hinv⟩ := position_startpos_holds_the_game h game hgame p t hp
+    obtain ⟨ms, hchain, houts, hfin, _, _⟩ :=
+      consecutive_go_answers_are_legal h search hreal raws ⟨p, t⟩ σ' outs hwf hinv hgo hrun hnn
+    refine ⟨hout.symm, ms, ?_, houts, ?_⟩
+    · rw [← habs]; exact hchain
+    · rw [hfin, habs]
 
 end Walleye
